@@ -203,7 +203,37 @@ func checkC17(c BitsCase) Verdict {
 
 var c17Noise = []string{"; a comment", "\tGLOBAL _gsym", "\tEXTERN _esym", "[INSTRSET \"i486p\"]", "[FILE \"c17.nas\"]", "[SECTION .text]", "qconst\tEQU\t0x10", "# hash comment", ""}
 
-func genModeGroup(t *rapid.T, mode, eff int, first bool, used map[string]bool) ModeGroup {
+// genMemStmt: a statement with a memory operand from C02's shapes (absolute addresses included).
+func genMemStmt(t *rapid.T, mode int) sem.Stmt {
+	cs := carriers()
+	c := cs[rapid.IntRange(0, len(cs)-2).Draw(t, "mcarrier")] // not LGDT
+	var sh memShape
+	if rapid.Bool().Draw(t, "maddr16") {
+		l := shapes16()
+		sh = l[rapid.IntRange(0, len(l)-1).Draw(t, "mshape16")]
+	} else {
+		l := shapes32()
+		sh = l[rapid.IntRange(0, len(l)-1).Draw(t, "mshape32")]
+	}
+	has := rapid.Bool().Draw(t, "mhasdisp")
+	d := rapid.SampledFrom([]int64{1, -1, 4, 127, 128, -128, 0x1234}).Draw(t, "mdisp")
+	if !okDisp(sh, d) {
+		d = 4
+	}
+	if sh.Base == "" && sh.Index == "" {
+		has, d = true, rapid.SampledFrom([]int64{0x0ff0, 0x0ff2, 0x1234}).Draw(t, "mabs")
+	}
+	reg := regsOf(c.Bits)[rapid.IntRange(0, 7).Draw(t, "mreg")]
+	var imm sem.Operand
+	if c.Other == "imm8" {
+		imm = genImm8(t, "mimm")
+	} else {
+		imm = genImm(t, "mimm")
+	}
+	return mkMemCase(mode, c, sh, d, has, reg, imm, 0).St
+}
+
+func genModeGroup(t *rapid.T, mode, eff int, first bool, used map[string]bool, prev []ModeGroup) ModeGroup {
 	g := ModeGroup{Mode: mode}
 	pickNoise := func(label string, n int) []string {
 		var out []string
@@ -221,9 +251,23 @@ func genModeGroup(t *rapid.T, mode, eff int, first bool, used map[string]bool) M
 	g.Pre = pickNoise("pre", rapid.IntRange(0, 2).Draw(t, "npre"))
 	fs := progForms()
 	n := rapid.IntRange(1, 4).Draw(t, "nst")
+	// one group in three repeats the statements of an earlier group (the same text under another, or the same, mode)
+	if len(prev) > 0 && rapid.IntRange(0, 2).Draw(t, "repeat") == 0 {
+		for _, st := range prev[rapid.IntRange(0, len(prev)-1).Draw(t, "repeatof")].Stmts {
+			if accepts(eff, st.Render()) {
+				g.Stmts = append(g.Stmts, st)
+			}
+		}
+		n = len(g.Stmts) + rapid.IntRange(0, 1).Draw(t, "nstmore")
+	}
 	for len(g.Stmts) < n {
-		f := fs[rapid.IntRange(0, len(fs)-1).Draw(t, "form")]
-		st := drawForm(t, f)
+		var st sem.Stmt
+		if rapid.IntRange(0, 3).Draw(t, "memform") == 0 {
+			st = genMemStmt(t, eff)
+		} else {
+			f := fs[rapid.IntRange(0, len(fs)-1).Draw(t, "form")]
+			st = drawForm(t, f)
+		}
 		if accepts(eff, st.Render()) {
 			g.Stmts = append(g.Stmts, st)
 		} else {
@@ -240,7 +284,7 @@ func genModeGroup(t *rapid.T, mode, eff int, first bool, used map[string]bool) M
 
 var propC17 = &Prop[BitsCase]{
 	ID:   "C17",
-	Rule: "programs of 1..5 label-free instruction groups, each optionally preceded by a [BITS 16]/[BITS 32] directive (none at all for the first group = default mode; repeated modes and 16->32->16 included) with comments, EQU, GLOBAL/EXTERN, other bracket directives and data lines before and after the directive; oracle (1) metamorphic: out(P) = concatenation of the groups assembled alone under their effective mode, (2) reference: every group decodes under its effective mode (x86asm) to exactly the instructions written (this pins 'no directive = 16-bit'); non-trivial = every group holds an instruction whose encoding differs between the modes; distinct by source text",
+	Rule: "programs of 1..5 label-free instruction groups (register, immediate and memory-operand forms; one group in three repeats the statement texts of an earlier group), each optionally preceded by a [BITS 16]/[BITS 32] directive (none at all for the first group = default mode; repeated modes and 16->32->16 included) with comments, EQU, GLOBAL/EXTERN, other bracket directives and data lines before and after the directive; oracle (1) metamorphic: out(P) = concatenation of the groups assembled alone under their effective mode, (2) reference: every group decodes under its effective mode (x86asm) to exactly the instructions written (this pins 'no directive = 16-bit'); non-trivial = every group holds an instruction whose encoding differs between the modes; distinct by source text",
 	Gen: func(t *rapid.T) BitsCase {
 		var c BitsCase
 		used := map[string]bool{}
@@ -254,7 +298,7 @@ var propC17 = &Prop[BitsCase]{
 			if mode != 0 {
 				eff = mode
 			}
-			g := genModeGroup(t, mode, eff, i == 0, used)
+			g := genModeGroup(t, mode, eff, i == 0, used, c.Groups)
 			g.Tag = i
 			c.Groups = append(c.Groups, g)
 		}
